@@ -37,7 +37,7 @@ def main():
     for v in rep.violations:
         key = v.get("finding_key") or v.get("harness")
         k = [x for x in known if x.get("key") == key]
-        if k: print("KNOWN-FINDING: property=%s %s" % (pid, k[0].get("what", key)))
+        if k: print("KNOWN-FINDING: property=%s %s" % (pid, k[0].get("what", key))); v["status"] = "known-finding"
         else: viols.append(v)
     ev = mod.evidence(rep, tier, seed, time.time() - t0) if hasattr(mod, "evidence") else default_evidence(rep, pid, tier, seed, time.time() - t0)
     ev["violations"] = len(viols)
